@@ -493,6 +493,7 @@ pub fn c15(run: &mut Run) {
     let mut samples = vec![];
     let mut labels: std::collections::BTreeMap<String, u64> = Default::default();
     let mut neg_total = 0u64;
+    let mut neg_distinct = std::collections::HashSet::new();
     let mut neg_kinds: std::collections::BTreeMap<String, u64> = Default::default();
     for b in 0..batches {
         let cases = generate(&c15_strategy(), run.seed, &format!("c15-{b}"), per);
@@ -548,6 +549,9 @@ pub fn c15(run: &mut Run) {
             *neg_kinds.entry(m.kind.clone()).or_default() += 1;
         }
         neg_total += muts.len() as u64;
+        for m in &muts {
+            neg_distinct.insert(mv_engine::case_key(m));
+        }
         report(run, "c15_rejection", neg);
         if run.violation_count() > 0 {
             break;
@@ -569,7 +573,7 @@ pub fn c15(run: &mut Run) {
         "generated programs (every ill-formed line must fail to compile)",
         "one-token mutants of sentences from the positive batch (unknown suffix, for/after without unit, non-integer repeat, keyframe without braces / with parentheses, missing %, unit on a percentage, stray punctuation / literal), one per source line; rustc's JSON diagnostics must contain an error located on EVERY mutant line",
         neg_total,
-        neg_total,
+        neg_distinct.len() as u64,
         vec![],
         0.0,
     );
